@@ -174,6 +174,13 @@ def check_ff(case, obs):
             if tend - last > max(step, gap) + tol:
                 v('ff-stops-early', 'last result time %r leaves more than one step to the end %r'
                   % (last, tend))
+    # sensor-estimate tables carry the states of the models that were passed (none for the defaults)
+    for nm_, mod_ in (('gyro', obs.get('gm')), ('accel', obs.get('am'))):
+        want = list(mod_.states) if mod_ is not None else []
+        for suffix in ('', '_sd'):
+            if list(res[nm_ + suffix].columns) != want:
+                v('%s-sensor-table-columns' % 'ff', '%s%s columns %s, model states %s'
+                  % (nm_, suffix, list(res[nm_ + suffix].columns), want))
     # spy log: exactly-once, in order, nothing outside the span
     log = obs['log']
     used = [(k, t) for (k, t, ok, nz) in log if ok]
